@@ -188,16 +188,20 @@ class EOFRotator(EOF):
         scores = scores * modes_sign
 
         # Store the results
-        self.model_data.add(model.data["norms"], "singular_values")
-        self.model_data.add(model.data["components"], "components")
+        # Shallow copies: DataContainer.add() renames and set_attrs() re-attributes the
+        # arrays, which must not leak into the data of the unrotated model
+        self.model_data.add(model.data["norms"].copy(deep=False), "singular_values")
+        self.model_data.add(model.data["components"].copy(deep=False), "components")
 
         # Assigning input data to the Rotator object allows us to inherit some functionalities from the original model
-        self.data.add(model.data["input_data"], "input_data", allow_compute=False)
+        self.data.add(
+            model.data["input_data"].copy(deep=False), "input_data", allow_compute=False
+        )
         self.data.add(rot_components, "components")
         self.data.add(scores, "scores")
         self.data.add(norms, "norms")
         self.data.add(expvar, "explained_variance")
-        self.data.add(model.data["total_variance"], "total_variance")
+        self.data.add(model.data["total_variance"].copy(deep=False), "total_variance")
         self.data.add(idx_modes_sorted, "idx_modes_sorted")
         self.data.add(rot_matrix, "rotation_matrix")
         self.data.add(phi_matrix, "phi_matrix")
